@@ -190,6 +190,9 @@ func GrammarPaths() *gen.Grammar {
 		Forms: []gen.Form{
 			gen.Pipe, gen.Comma,
 			gen.TL("as", ". as $x | %0", 1, pipe),
+			gen.TL("as-arr", ". as [$p] | %0", 1, pipe),
+			gen.TL("as-obj", ". as {a: $p} | %0", 1, pipe),
+			gen.TL("as-alt", ". as [$p] ?// {a: $p} ?// $p | %0", 1, pipe),
 			gen.TL("bind", "%0 as $x | %1", 2, pipe, term),
 			gen.T("opt", "%0?", 1, term),
 			gen.T("paren", "(%0)", 1),
